@@ -1,6 +1,7 @@
 import SkaModel.Core.Proto
 import SkaModel.Core.Pool
 import SkaModel.Core.Loop
+import SkaModel.Core.SeqSelect
 
 /-! Driver commands for the pool skeleton (C01, C02, C14). One self-contained case per line. -/
 
@@ -87,7 +88,22 @@ def cmdCandMap : P String := do
   | some mp => pure ("some " ++ showNats mp)
   | Option.none => pure "none"
 
+/-- `seqcheck <cand…> <k> (<n> row… noise…)×k` → `picks … | mask=<0|1> outside=<0|1>` -/
+def cmdSeqCheck : P String := do
+  let cand ← listOf nat
+  let k ← nat
+  let steps ← many (do
+    let row ← listOf optFloat
+    let nz ← many float row.length
+    pure (row, nz)) k
+  let rows := steps.map (·.1)
+  let noises := steps.map (·.2)
+  let picks := Ska.Seq.seqPicks rows noises
+  let m := Ska.Seq.maskOkB [] rows picks
+  let o := rows.all (Ska.Seq.nanOutsideB cand)
+  pure s!"picks {showNats picks} | mask={if m then 1 else 0} outside={if o then 1 else 0}"
+
 def handlers : List (String × P String) :=
-  [ ("candmap", cmdCandMap), ("poolA", cmdPoolA), ("validpool", cmdValidPool), ("altrace", cmdAlTrace), ("unlabeled", cmdUnlabeled) ]
+  [ ("candmap", cmdCandMap), ("seqcheck", cmdSeqCheck), ("poolA", cmdPoolA), ("validpool", cmdValidPool), ("altrace", cmdAlTrace), ("unlabeled", cmdUnlabeled) ]
 
 end Ska.Drv.Pool
